@@ -205,8 +205,9 @@ func (p *Parser) number() (Number, error) {
 // More checks if the parser has more tokens to read.
 func (p *Parser) More() bool {
 	if _, err := p.next(); err != nil {
-		// If the text ends in the middle of a token, there's still a term to read. Term will fail to.
-		return p.lexer.chunk() != ""
+		// If the text ends in the middle of a token or of a bracketed comment, there's still a term to read. Term will
+		// fail to.
+		return p.lexer.chunk() != "" || p.lexer.unclosed
 	}
 	p.backup()
 	return true
